@@ -460,7 +460,12 @@ fn alphabet(b: usize) -> Vec<WAct> {
     v.push(WAct::VecI64(vec![1, -2, 3]));
     v.push(WAct::VecI64(vec![]));
     v.push(WAct::VecI64(vec![i64::MIN, i64::MAX, 0]));
+    // long vectors: element counts around the sizes an implementation might process in blocks
+    for n in [255usize, 256, 257, 1023, 1024, 1025, 2049, 4097] {
+        v.push(WAct::VecI64((0..n as i64).map(|i| (i * 37 % 1000) - 500).collect()));
+    }
     v.push(WAct::VecStr(vec![3, 0, 45]));
+    v.push(WAct::VecStr((0..1030).map(|i| i % 7).collect()));
     v.push(WAct::VecVec);
     for k in 2..=8 {
         v.push(WAct::Tup(k));
@@ -696,7 +701,7 @@ fn the_pass(quick: bool, with_rendering_thorough: bool) -> Result<PassOut, Strin
     for &f in &fills {
         for a in &acts {
             // the very long strings only at a reduced set of fill levels
-            let long = matches!(a, WAct::Str(n, _) | WAct::Owned(n, _) if *n >= b - 1);
+            let long = matches!(a, WAct::Str(n, _) | WAct::Owned(n, _) if *n >= b - 1) || matches!(a, WAct::VecI64(v) if v.len() > 64) || matches!(a, WAct::VecStr(v) if v.len() > 64);
             if long && !(f <= 2 || f + 2 >= b || f % 4093 == 0) {
                 continue;
             }
@@ -709,7 +714,7 @@ fn the_pass(quick: bool, with_rendering_thorough: bool) -> Result<PassOut, Strin
     families.push(("single_write", run_family("single_write", &cases, b), n));
 
     // family 2: two writes after the fill (a flush between them must not repeat or lose anything)
-    let short_acts: Vec<WAct> = acts.iter().filter(|a| !matches!(a, WAct::Str(n, _) | WAct::Owned(n, _) if *n > 64)).cloned().collect();
+    let short_acts: Vec<WAct> = acts.iter().filter(|a| !matches!(a, WAct::Str(n, _) | WAct::Owned(n, _) if *n > 64) && !matches!(a, WAct::VecI64(v) if v.len() > 64) && !matches!(a, WAct::VecStr(v) if v.len() > 64)).cloned().collect();
     let firsts: Vec<&WAct> = short_acts.iter().step_by(7).collect();
     let mut cases = vec![];
     for &f in fills.iter().filter(|f| **f + 80 >= b || **f <= 2) {
